@@ -12,6 +12,21 @@ MAX_UNROLL = 12
 MAX_PATHS = 4000
 
 
+def pull_foralls(f):
+    """prenex: (a -> forall x. m) and (forall x. m) become a single quantifier block (better triggers for z3)"""
+    if z3.is_quantifier(f) and f.is_forall():
+        n = f.num_vars()
+        cs = [z3.Const(fresh_name(f.var_name(i)), f.var_sort(i)) for i in range(n)]
+        body = z3.substitute_vars(f.body(), *reversed(cs))
+        vs, m = pull_foralls(body)
+        return cs + vs, m
+    if z3.is_implies(f):
+        vs, m = pull_foralls(f.arg(1))
+        if vs:
+            return vs, z3.Implies(f.arg(0), m)
+    return [], f
+
+
 def parse_expr(s):
     return ast.parse(s.strip(), mode="eval").body
 
@@ -404,12 +419,14 @@ class Executor(Evaluator):
                 return ("func", v.qualname)
             if isinstance(v, Opaque):
                 if self.cur_contract and name in self.cur_contract.calls:
-                    return ("iface", self.cur_contract.calls[name])
+                    tgt = self.cur_contract.calls[name]
+                    return ("iface", tgt) if tgt.startswith("iface:") else ("func", tgt)
                 raise Unsupported(f"indirect call through {name} without an interface binding")
         if self.cur_contract and name in self.cur_contract.calls:
             tgt = self.cur_contract.calls[name]
             if tgt.startswith("iface:"):
                 return ("iface", tgt)
+            return ("func", tgt)
         fi = self.repo.resolve(self.module, name)
         if fi is None:
             raise Unsupported(f"unresolved callee {name}")
@@ -434,7 +451,7 @@ class Executor(Evaluator):
         if kind == "iface":
             con = self.contracts.interfaces[target.split(":", 1)[1]]
             return self.call_by_contract(con, None, args, st, node)
-        fi = self.repo.functions[target]
+        fi = self.repo.functions[target.split("#")[0]]
         con = self.contracts.contracts.get(target)
         name = node.func.id
         if con is not None and not (self.cur_contract and name in self.cur_contract.inline) and not self.unroll_inline_all:
@@ -501,6 +518,11 @@ class Executor(Evaluator):
                     for k, ax in zip(ks, a.axes):
                         conds.append(k == zint(ax[1]) if ax[0] == "fix" else z3.And(k >= zint(ax[1]), k < zint(ax[1]) + zint(ax[2])))
                     st.heap[a.obj.id] = z3.Lambda(ks, z3.If(z3.And(*conds), z3.Select(newt, *ks), z3.Select(old, *ks)))
+                if a.obj.dtype in DTYPE_RANGE:
+                    lo_, hi_ = DTYPE_RANGE[a.obj.dtype]
+                    ks_ = [z3.Int(fresh_name("d")) for _ in a.obj.shape]
+                    e_ = z3.Select(st.heap[a.obj.id], *ks_)
+                    st.pc.append(z3.ForAll(ks_, z3.And(e_ >= lo_, e_ <= hi_)))
         # result
         rt = con.result
         if rt == "int":
@@ -514,6 +536,10 @@ class Executor(Evaluator):
         post = st.snapshot()
         post.env = dict(cenv)
         post.env["result"] = res
+        for gname in set(con.extra.get("ghost_calls", {}).values()):
+            gv = fresh_int(gname)
+            st.pc.append(gv >= 0)
+            post.env[gname] = gv
         post.ghost_env = genv
         post.old = pre
         for label, clause, tags in con.clauses("ensures"):
@@ -570,7 +596,10 @@ class Executor(Evaluator):
             rng = b_and(kk >= lo, kk < hi)
             if name == "forall":
                 f = b_implies(rng, body)
-                return f if isinstance(f, bool) else z3.ForAll([kk], f)
+                if isinstance(f, bool):
+                    return f
+                vs, matrix = pull_foralls(f)
+                return z3.ForAll([kk] + vs, matrix)
             f = b_and(rng, body)
             return f if isinstance(f, bool) else z3.Exists([kk], f)
         if name == "implies":
